@@ -39,8 +39,14 @@ ID_RE = re.compile(r"\b[1-9]\d{5,}\b")
 
 
 def tokens(text):
+    """Code tokens plus, interleaved, the wording of every comment (a write-through keeps the
+    trivia of the binding it rewrites and carries none elsewhere)."""
     r = cst.read(text)
-    return None if r.error else [(t, bytes(b)) for t, b in r.tokens]
+    if r.error:
+        return None
+    out = [(t, bytes(b)) for t, b in r.tokens]
+    notes = sorted((c.anchor, cst.comment_wording(c.raw)[1]) for c in r.comments) if r.comments else []
+    return out + [("comment@%d" % a, repr(w).encode()) for a, w in notes]
 
 
 def site_kind(prog, bindings) -> str:
@@ -185,7 +191,7 @@ def apply_cli(live, path, new):
     return ("exc", r.exc_type, r.exc_msg, getattr(r, "exc_mro", [r.exc_type]))
 
 
-def apply_api(live, path, new):
+def apply_api(live, path, new, value_object=None):
     from nix_manipulator.expressions.identifier import Identifier
     try:
         v = live.source
@@ -193,7 +199,7 @@ def apply_api(live, path, new):
             v = v[k]
         if not isinstance(v, Identifier):
             return ("exc", "NotAnIdentifier", type(v).__name__, [])
-        v.value = new
+        v.value = new if value_object is None else value_object
         out = live.source.rebuild()
         live.text = out
         return ("ok", out)
@@ -471,6 +477,17 @@ def run_shard(spec):
                     break
                 path = plan["path"]
             new = S.uid()
+            value_object = None
+            if route == "api":
+                # half of the API assignments pass an expression object; sometimes the very object
+                # that was assigned in the previous step (the caller may reuse its value)
+                from nix_manipulator.expressions.primitive import Primitive
+                prev = getattr(live, "last_value_object", None)
+                if prev is not None and rng.random() < 0.4:
+                    new, value_object = prev
+                elif rng.random() < 0.6:
+                    value_object = Primitive(new)
+                live.last_value_object = (new, value_object) if value_object is not None else None
             text_before = S.render(prog)
             wal(f"{route} {'.'.join(path)} {new}")
             kind, expected, desc = predictions(prog, path, new)
@@ -497,8 +514,11 @@ def run_shard(spec):
             if feats.get("lexical_count") in ("2", "3") or chain or \
                     (feats.get("lexical") != "none" and feats.get("with_candidate") == "yes"):
                 nontriv.add(B.h64(text_before + ".".join(path) + route))
-            got = apply_cli(live, path, new) if route == "cli" else apply_api(live, path, new)
-            trail.append({"route": route, "path": path, "new": new})
+            got = apply_cli(live, path, new) if route == "cli" else apply_api(live, path, new, value_object)
+            trail.append({"route": route, "path": path, "new": new,
+                          "object": "reused" if (value_object is not None and getattr(live, "last_value_object", None)
+                                                 and trail and trail[-1].get("new") == new) else
+                                    ("fresh" if value_object is not None else "python-int")})
             case = {"text": prog.text, "trail": list(trail), "step": step}
             base = {"route": route, "expected_site": desc, "kind": kind, "history": "yes" if step else "no",
                     "lexical": feats.get("lexical", "?"), "with_inside_lexical": feats.get("with_inside_lexical", "?"),
